@@ -654,6 +654,9 @@ DEPS = {
     'C17': ['C06', 'C07', 'C09', 'C14', 'C10'],
     'C18': ['C08', 'C10', 'C11', 'C12', 'C13', 'C14', 'C16'],
     'C19': ['C08', 'C11', 'C16'],
+    # the library's own debug cross-checks compare the kernel with its brute-force sibling: a kernel that leaves its
+    # specification makes debug builds panic where release builds return
+    'C20': ['C08'],
 }
 
 
